@@ -377,6 +377,9 @@ def checkC05 (i : FmtInput) (cands : List RawValue) (dec : Decoded) (obs : List 
           let full := sh == .zsh && (zshSt i == .fullQuoting || zshSt i == .fullQuotingEscaping)
           let matching := cands.filter (fun c => dropTCL c.value == dropTCL w)
           if isErr then (if nsp then none else some { prop := "C05", code := s!"{sh.name}:err_entry_space", detail := showStr o.text })
+          -- a blank *inside* the quotes the typed word closes: the space ends up in the word, not after it
+          else if full && matching.isEmpty && cands.any (fun c => dropTCL c.value ++ [' '] == dropTCL w) then
+            some { prop := "C05", code := "zsh:full_quote_space", detail := showStr o.text }
           else if matching.isEmpty then none
           else if full then (if nsp then none else some { prop := "C05", code := "zsh:full_quote_space", detail := showStr o.text })
           else if matching.any (fun c => nospaceOk ns c.value nsp) then none
